@@ -138,5 +138,27 @@ func flagsHandle(c map[string]J) map[string]J {
 			return map[string]J{"status": "mismatch", "input": input, "what": "the flags of ANOTHER interpreter after call " + fmt.Sprint(i+1), "expected": fmt.Sprint(def, defUndef, defStr), "observed": fmt.Sprint(o2, u2, s2)}
 		}
 	}
+	// current_prolog_flag/2 with every kind of first argument, in the state the history ends in
+	for _, x := range c["get"].([]J) {
+		g := x.(map[string]J)
+		goal := fmt.Sprintf("findall(x, current_prolog_flag(%s, V), L), length(L, N).", flagsArg(g["f"].([]J), "F"))
+		var r struct{ N int }
+		sol := p.QuerySolution(goal)
+		got := flagsErrClass(sol.Err())
+		if got == "ok" {
+			_ = sol.Scan(&r)
+			switch {
+			case r.N == 1:
+				got = "value"
+			case r.N > 1:
+				got = "enumerates"
+			default:
+				got = "fails"
+			}
+		}
+		if got != g["outcome"] {
+			return map[string]J{"status": "mismatch", "input": strings.Join(desc, " ") + " " + goal, "what": "current_prolog_flag/2 by kind of first argument", "expected": g["outcome"], "observed": got}
+		}
+	}
 	return map[string]J{"status": "ok", "input": strings.Join(desc, " ")}
 }
